@@ -90,7 +90,7 @@ M = [
     ('C10', 'second-rhs-skips-update-stage', 'R10.3', 'src/soplex/clufactor.hpp',
      "      rn = vSolveUpdateRight(vec, idx, rn, eps);\n      vSolveUpdateRightNoNZ(vec2, eps2);\n   }\n\n   return rn;",
      "      rn = vSolveUpdateRight(vec, idx, rn, eps);\n   }\n\n   return rn;"),
-    ('C17', 'basis-backpointer-not-rebound', 'R17.6', 'src/soplex/spxsolver.hpp', "         SPxBasisBase<R>::theLP = this;\n\n         assert(!freePricer", "         assert(!freePricer"),
+    ('C17', 'basis-backpointer-not-rebound', 'R17.6', 'src/soplex/spxsolver.hpp', "         SPxBasisBase<R>::theLP = this;\n\n         // the basis matrix is an array", "         // the basis matrix is an array"),
     ('C17', 'guard-reads-destination', 'R17.5', 'src/soplex/slufactor.hpp', "   if(old.l.ridx != nullptr)\n   {\n      assert(old.l.rbeg  != nullptr);", "   if(this->l.ridx != nullptr)\n   {\n      assert(old.l.rbeg  != nullptr);"),
     ('C18', 'mutable-global-counter', 'R18.1', 'src/soplex/spxout.cpp',
      "namespace soplex\n{\n", "namespace soplex\n{\nstatic int spxout_instances = 0;\nint countSPxOutInstances() { return ++spxout_instances; }\n"),
